@@ -534,6 +534,77 @@ func TestC15ReadYourWrites(t *testing.T) {
 	})
 }
 
+// TestC15SimultaneousWritersThenSince: several writers (sessions of one CacheHandler, or
+// callers of one EventCache) insert one fresh event each at the same moment, with created_at
+// values of their own; when all insertions have returned, queries with a `since` between those
+// values must show every event at or after the bound. Any summary of the store that is kept
+// beside it (a high-water mark, a count) has to be right under simultaneous insertions too.
+func TestC15SimultaneousWritersThenSince(t *testing.T) {
+	col := ev.For("C15").SetRule(c15Rule)
+	rapid.Check(t, func(t *rapid.T) {
+		nw := rapid.IntRange(2, 5).Draw(t, "writers")
+		rounds := rapid.IntRange(150, 600).Draw(t, "rounds")
+		viaHandler := rapid.IntRange(0, 3).Draw(t, "via_handler") != 0
+		capacity := nw*rounds + 10
+		desc := map[string]any{"mode": "simultaneous-writers-then-since", "writers": nw, "rounds": rounds, "via_handler": viaHandler, "cap": capacity}
+		cache := mocrelay.NewEventCache(capacity)
+		handler := mocrelay.NewCacheHandler(capacity)
+		apis := make([]cacheAPI, nw+1)
+		for i := range apis {
+			if viaHandler {
+				s, cancel := newSessionCache(handler)
+				defer cancel()
+				apis[i] = s
+			} else {
+				apis[i] = directCache{cache}
+			}
+		}
+		for r := 0; r < rounds; r++ {
+			evs := make([]*mocrelay.Event, nw)
+			for w := range evs {
+				// the writer with the newest timestamp rotates
+				evs[w] = &mocrelay.Event{Pubkey: gen.Keys[w%gen.NKeys].Pub, Kind: 1, CreatedAt: int64(1000 + r*nw + (w+r)%nw), Tags: []mocrelay.Tag{}, Content: fmt.Sprint("sw", r, ".", w)}
+				gen.Seal(evs[w])
+			}
+			gate := make(chan struct{})
+			oks := make(chan bool, nw)
+			for w := 0; w < nw; w++ {
+				go func(w int) {
+					<-gate
+					for y := 0; y < (w*5+r)%7; y++ {
+						runtime.Gosched()
+					}
+					oks <- apis[w].add(evs[w])
+				}(w)
+			}
+			close(gate)
+			for w := 0; w < nw; w++ {
+				if !<-oks {
+					hx.Fail(t, ev.Failure{Property: "C15", Signature: "not-linearizable", Clause: "every result is one that some sequential ordering consistent with real time could have produced (a fresh event is reported as new)", Case: desc, Observed: fmt.Sprintf("round %d: the insertion of a fresh event was not reported as new", r)})
+				}
+			}
+			// all insertions have returned: a reader that starts now sees them all
+			bound := int64(1000 + r*nw + rapid.IntRange(0, nw-1).Draw(t, fmt.Sprintf("r%dbound", r)))
+			if r%50 != 0 && r%7 != 3 { // most rounds ask for the newest one only: the tightest bound
+				bound = int64(1000 + r*nw + nw - 1)
+			}
+			res := apis[nw].find([]*mocrelay.ReqFilter{{Since: gen.Ptr(bound)}})
+			got := map[string]bool{}
+			for _, e := range res {
+				got[e.ID] = true
+			}
+			for _, e := range evs {
+				if e.CreatedAt >= bound && !got[e.ID] {
+					hx.Fail(t, ev.Failure{Property: "C15", Signature: "not-linearizable", Clause: "every result is one that some sequential ordering consistent with real time could have produced (insertions that have returned are visible to a query that starts afterwards)", Case: desc,
+						Observed: fmt.Sprintf("round %d: %d writers inserted created_at %d..%d at the same moment and all returned; a query since=%d started afterwards shows %d events and not %s (created_at %d)", r, nw, 1000+r*nw, 1000+r*nw+nw-1, bound, len(res), gen.Short(e.ID), e.CreatedAt)})
+				}
+			}
+		}
+		col.Label("mode:simultaneous-writers-then-since")
+		col.Case(true, hx.JSON(desc), func() any { return desc })
+	})
+}
+
 // TestC15HandlerSessionsLargeAnswers: concurrent CacheHandler sessions with large
 // REQ answers read at different speeds; every answer must consist of retained
 // events matching that session's filters (no cross-talk between sessions).
